@@ -1,7 +1,257 @@
 import Driver.Common
+import Driver.C11
+import Log4rsModel.Pattern.Ast
+/-
+C09 driver. The case carries the pattern AST as a prefix token list and the pattern string the
+harness printed from it; the driver prints the AST with `showPats` and refuses the case when the
+strings differ. Model observation: the C11 model run on the pattern string. Spec verdict: the
+implementation's text and style calls against `denotePats` / `stylesPats` of the AST.
+-/
 namespace Driver.C09
-open Driver
+open Log4rs Log4rs.Proto Log4rs.Pattern Log4rs.Pattern.Parse Driver
 
-def handle : Handler := fun _ _ => badCase "unimplemented"
+def decEsc (s : String) : Option Esc :=
+  if s = "p" then some .plain else if s = "d" then some .doubled else if s = "b" then some .backslash else none
+
+def decChar (h : String) : Option Char :=
+  match hexNat? h with
+  | some n => if h : n.isValidChar then some (Char.ofNatAux n h) else none
+  | none => none
+
+def decLit (t : String) : Option Lit :=
+  match splitOnChar ':' (t.drop 1).toString with
+  | [h, e] => do pure { c := (← decChar h), esc := (← decEsc e) }
+  | _ => none
+
+def decDigit (c : Char) : Option (Fin 10) :=
+  if h : '0'.toNat ≤ c.toNat ∧ c.toNat - '0'.toNat < 10 then some ⟨c.toNat - '0'.toNat, h.2⟩ else none
+
+def decDigits (s : String) : Option (Option Digits) :=
+  if s = "-" then some none else (mapM? decDigit s.toList).map some
+
+def decSpec (t : String) : Option (Option FormatSpec) :=
+  if t = "s~" then some none else
+  match splitOnChar ':' (t.drop 1).toString with
+  | [f, a, mn, mx] => do
+    let fill ← decOpt decChar f
+    let align ← if a = "-" then some none else if a = "l" then some (some false) else if a = "r" then some (some true) else none
+    let minW ← decDigits mn
+    let maxW ← decDigits mx
+    pure (some { fill, align, minW, maxW })
+  | _ => none
+
+def decLeafKind (s : String) : Option LeafKind :=
+  match s with
+  | "level" => some .level | "message" => some .message | "module" => some .module
+  | "file" => some .file | "line" => some .line | "thread" => some .thread
+  | "threadId" => some .threadId | "pid" => some .pid | "tid" => some .tid
+  | "target" => some .target | "newline" => some .newline
+  | _ => none
+
+def decGroupKind (s : String) : Option GroupKind :=
+  match s with
+  | "a" => some .align | "h" => some .highlight | "d" => some .debug | "r" => some .release
+  | _ => none
+
+/-- `[` lits `]` -/
+def decLitsAux : List String → List Lit → Option (List Lit × List String)
+  | [], _ => none
+  | t :: rest, acc =>
+    if t = "]" then some (acc.reverse, rest)
+    else match decLit t with
+      | some l => decLitsAux rest (l :: acc)
+      | none => none
+
+def decLits (ts : List String) : Option (List Lit × List String) :=
+  match ts with
+  | t :: rest => if t = "[" then decLitsAux rest [] else none
+  | [] => none
+
+/-- pats until `)` or the end; the rest starts at the `)` -/
+def decPats : Nat → List String → Option (List Pat × List String)
+  | 0, _ => none
+  | _ + 1, [] => some ([], [])
+  | f + 1, t :: rest =>
+    if t = ")" then some ([], t :: rest)
+    else if t.startsWith "L" then do
+      let l ← decLit t
+      let (ps, r) ← decPats f rest
+      pure (.lit l :: ps, r)
+    else
+      match rest with
+      | [] => none
+      | st :: rest =>
+        match decSpec st with
+        | none => none
+        | some spec =>
+          let hd := splitOnChar ':' (t.drop 1).toString
+          if t.startsWith "F" then
+            match hd with
+            | [k, l] => do
+              let k ← decLeafKind k
+              let long ← decBool l
+              let (ps, r) ← decPats f rest
+              pure (.leaf k long spec :: ps, r)
+            | _ => none
+          else if t.startsWith "D" then
+            match hd with
+            | [l, mode, z] => do
+              let long ← decBool l
+              let utc ← decBool z
+              if mode = "0" then
+                let (ps, r) ← decPats f rest
+                pure (.date long none spec :: ps, r)
+              else
+                let (fm, rest) ← decLits rest
+                let zone ← if mode = "1" then some none else if mode = "2" then some (some utc) else none
+                let (ps, r) ← decPats f rest
+                pure (.date long (some (fm, zone)) spec :: ps, r)
+            | _ => none
+          else if t.startsWith "X" then
+            match hd with
+            | [l, d] => do
+              let long ← decBool l
+              let hasD ← decBool d
+              let (key, rest) ← decLits rest
+              if hasD then
+                let (dflt, rest) ← decLits rest
+                let (ps, r) ← decPats f rest
+                pure (.mdc long key (some dflt) spec :: ps, r)
+              else
+                let (ps, r) ← decPats f rest
+                pure (.mdc long key none spec :: ps, r)
+            | _ => none
+          else if t.startsWith "G" then
+            match hd, rest with
+            | [k, l], op :: rest => do
+              let k ← decGroupKind k
+              let long ← decBool l
+              if op ≠ "(" then none else
+              let (body, rest) ← decPats f rest
+              match rest with
+              | cl :: rest =>
+                if cl ≠ ")" then none else
+                let (ps, r) ← decPats f rest
+                pure (.group k long body spec :: ps, r)
+              | [] => none
+            | _, _ => none
+          else none
+
+def decAst (s : String) : Option (List Pat) :=
+  let toks := decList ',' s
+  match decPats (toks.length + 1) toks with
+  | some (ps, []) => some ps
+  | _ => none
+
+/-! classification of an AST outside `WF` (the input classes of the findings) -/
+
+mutual
+def hasLongThreadId : Pat → Bool
+  | .leaf k long _ => k == .threadId && long
+  | .group _ _ body _ => hasLongThreadIdL body
+  | _ => false
+def hasLongThreadIdL : List Pat → Bool
+  | [] => false
+  | p :: ps => hasLongThreadId p || hasLongThreadIdL ps
+end
+
+def doubledClose (l : Lit) : Bool := l.c == ')' && l.esc == .doubled
+
+mutual
+/-- a doubled `)` inside a parenthesised argument -/
+def hasDoubledCloseInArg (inArg : Bool) : Pat → Bool
+  | .lit l => inArg && doubledClose l
+  | .date _ (some (f, _)) _ => f.any doubledClose
+  | .mdc _ key dflt _ => key.any doubledClose || (match dflt with | some d => d.any doubledClose | none => false)
+  | .group _ _ body _ => hasDoubledCloseInArgL true body
+  | _ => false
+def hasDoubledCloseInArgL (inArg : Bool) : List Pat → Bool
+  | [] => false
+  | p :: ps => hasDoubledCloseInArg inArg p || hasDoubledCloseInArgL inArg ps
+end
+
+mutual
+def hasMdcNotPlain : Pat → Bool
+  | .mdc _ key dflt _ =>
+    key.isEmpty || !key.all plainLit ||
+      (match dflt with | some d => d.isEmpty || !d.all plainLit | none => false)
+  | .group _ _ body _ => hasMdcNotPlainL body
+  | _ => false
+def hasMdcNotPlainL : List Pat → Bool
+  | [] => false
+  | p :: ps => hasMdcNotPlain p || hasMdcNotPlainL ps
+end
+
+mutual
+def depthOf : Pat → Nat
+  | .group _ _ body _ => depthOfL body + 1
+  | _ => 0
+def depthOfL : List Pat → Nat
+  | [] => 0
+  | p :: ps => max (depthOf p) (depthOfL ps)
+end
+
+mutual
+def featuresOf : Pat → List String
+  | .lit l => if l.esc == .plain then [] else [if l.esc == .doubled then "esc-doubled" else "esc-backslash"]
+  | .leaf _ long spec => (if long then ["alias"] else []) ++ (if spec.isSome then ["spec"] else [])
+  | .date long args spec => "date" :: (if long then ["alias"] else []) ++ (if spec.isSome then ["spec"] else []) ++
+      (match args with | some (_, some _) => ["zone"] | _ => [])
+  | .mdc long _ dflt spec => "mdc" :: (if long then ["alias"] else []) ++ (if spec.isSome then ["spec"] else []) ++
+      (if dflt.isSome then ["mdc-default"] else [])
+  | .group k long body spec =>
+    (match k with | .align => "unnamed" | .highlight => "highlight" | .debug => "debug" | .release => "release") ::
+      (if long then ["alias"] else []) ++ (if spec.isSome then ["spec"] else []) ++ featuresOfL body
+def featuresOfL : List Pat → List String
+  | [] => []
+  | p :: ps => featuresOf p ++ featuresOfL ps
+end
+
+def classOf (bits : Nat) (ast : List Pat) : String :=
+  if wfPats bits false ast then "wf"
+  else if hasLongThreadIdL ast then "thread_id-alias"
+  else if hasDoubledCloseInArgL false ast then "doubled-close-paren-in-argument"
+  else if hasMdcNotPlainL ast then "mdc-argument-not-plain"
+  else "outside-wf"
+
+def handle : Handler := fun cas obs =>
+  match cas with
+  | astField :: rest =>
+    match decAst astField, C11.decCase rest with
+    | some ast, some c =>
+      if showPats ast ≠ c.pattern then badCase "pattern is not the printed AST" else
+      match obs.flatMap (splitOnChar ' ') with
+      | implOutcome :: implOps :: factFields =>
+        match C11.decFacts factFields with
+        | none => badCase "facts"
+        | some f =>
+          if !C11.classifiable c.pattern then badCase "character outside the sample table" else
+          let env := C11.envOf c f
+          let model := C11.modelObs c f
+          let cls := classOf C11.profile.wordBits ast
+          let feats := (featuresOfL ast).eraseDups
+          let tags := cls :: ("depth" ++ toString (min (depthOfL ast) 6)) :: feats ++
+            (if f.masked then ["masked"] else []) ++
+            (if feats.isEmpty then ["trivial"] else [])
+          let sigOf (what : String) : String :=
+            if cls = "wf" then "C09/" ++ what else "C09/" ++ cls
+          let spec :=
+            if implOutcome.startsWith "PANIC" then
+              let bad := (datesPats env ast).any (fun (fm, u) => !env.strftimeOk fm u)
+              if bad then "FAIL:panic at encode;sig=C09/invalid-strftime" else "FAIL:panic;sig=" ++ sigOf "panic"
+            else if implOutcome = "ok" then
+              match C11.implText implOps, C11.implStyles implOps with
+              | some txt, some sty =>
+                let want := C11.maskDigits f.masked (denotePats env c.record ast)
+                if txt ≠ want then "FAIL:text differs from the pattern's meaning;sig=" ++ sigOf "meaning"
+                else if sty ≠ stylesPats env c.record ast then "FAIL:style calls;sig=" ++ sigOf "styles"
+                else "ok"
+              | _, _ => "FAIL:unreadable operation stream;sig=C09/ops"
+            else "FAIL:outcome " ++ implOutcome ++ ";sig=" ++ sigOf "outcome"
+          { model, spec, tags }
+      | _ => badCase "observation"
+    | none, _ => badCase "ast"
+    | _, none => badCase "case"
+  | [] => badCase "arity"
 
 end Driver.C09
